@@ -71,6 +71,21 @@ func c17Items() []c17Item {
 		out = append(out, c17Item{name: fmt.Sprintf("*Activity{id:%q,updated:t2@+05}", id), kind: "*Activity",
 			it: &ap.Activity{ID: id, Type: []ap.ActivityVocabularyType{ap.LikeType, ap.CreateType, ap.FollowType, ap.AnnounceType}[k], Updated: t2.In(time.FixedZone("p5", 5*3600))}, key: t2})
 	}
+	// activities of every type name that carry NO instants of their own but embed (object, actor, target, result, attachment,
+	// inReplyTo, replies) items that do: only the item's own published/updated count
+	nested := func() ap.Item {
+		return &ap.Object{ID: "https://example.com/nested", Type: ap.NoteType, Published: t3, Updated: t3.Add(time.Hour)}
+	}
+	for _, name := range vocabularyNamesOf("Activity") {
+		out = append(out, c17Item{name: fmt.Sprintf("*Activity{type:%s, no instants, object/actor/target with instants}", name), kind: "*Activity",
+			it: &ap.Activity{ID: "https://example.com/wrap", Type: ap.ActivityVocabularyType(name), Object: nested(), Actor: &ap.Actor{ID: "https://example.com/p", Type: ap.PersonType, Published: t3},
+				Target: nested(), Result: ap.ItemCollection{nested()}, Attachment: nested(), InReplyTo: nested()}, key: time.Time{}})
+	}
+	for _, name := range vocabularyNamesOf("Object") {
+		out = append(out, c17Item{name: fmt.Sprintf("*Object{type:%s, published:t1, attachment/replies with later instants}", name), kind: "*Object",
+			it: &ap.Object{ID: "https://example.com/host", Type: ap.ActivityVocabularyType(name), Published: t1, Attachment: nested(), InReplyTo: nested(),
+				Replies: &ap.Collection{ID: "https://example.com/r", Type: ap.CollectionType, Published: t3, Items: ap.ItemCollection{nested()}}}, key: t1})
+	}
 	// every object struct of the vocabulary (pointer and value) with published/updated from two instants and EVERY OTHER instant
 	// property (startTime, endTime, deleted, closed ...) set to a decoy in the year 2500: only published/updated may decide
 	decoy := time.Date(2500, 1, 1, 0, 0, 0, 0, time.UTC)
